@@ -108,6 +108,12 @@ Definition descriptor_ok (x : vx) : Prop :=
     extent_lines text <> [] /\                                  (* at least one extent *)
     (forall l, In l (extent_lines text) -> memN 47 l = false).  (* no extent contains '/' *)
 
+(* the descriptor text of a byte area: the bytes up to the first NUL, lower-cased *)
+Definition up_to_nul (b : bytes) : bytes :=
+  match find [0] b with Some i => btake i b | None => b end.
+Definition text_of (b : bytes) : str := lower_ascii (up_to_nul b).
+Definition is_ascii_text (b : bytes) : bool := forallb (fun c => c <? 128) (up_to_nul b).
+
 (* the sparse header fields the code reads *)
 Definition vmdk_sig (h : bytes) : bytes := bslice 0 4 h.
 Definition vmdk_ver (h : bytes) : N := le_at 4 4 h.
